@@ -242,7 +242,10 @@ pub fn run(ws: &[&str]) -> String {
         }
         let mut b = http::Response::builder().status(status);
         if let Some(ct) = &ct {
-            b = b.header(http::header::CONTENT_TYPE, match http::HeaderValue::from_bytes(ct) { Ok(v) => v, Err(_) => std::panic::panic_any(Exhausted) });
+            // line feeds separate the values of SEVERAL Content-Type headers
+            for one in ct.split(|c| *c == b'\n') {
+                b = b.header(http::header::CONTENT_TYPE, match http::HeaderValue::from_bytes(one) { Ok(v) => v, Err(_) => std::panic::panic_any(Exhausted) });
+            }
         }
         Ok(b.body(body.clone()).unwrap())
     };
